@@ -32,6 +32,7 @@ func runC10(c *core.Ctx) {
 	ruleInStreamGuards(c, "C10-R4")
 	ruleStringEncryptionUnconditional(c, "C10-R4")
 	rulePlaintextExemptions(c)
+	ruleNoArgMutation(c, "C10-R7") // an in-place cipher turns the second write of the same string into plaintext
 	ruleTrailerEncrypt(c)
 	ruleRefLimits(c, "C10-R6")
 	c.Check("C10-R6", "pdf.limits", "object numbers are below 2^24 and generations at most 2^16-1: exactly the widths mixed into the per-object key", func(o *core.Ob) {
